@@ -148,7 +148,11 @@ func (e *engine) runBatch(jobs []job) []result {
 		case o.Timeout:
 			out[i].msg = fmt.Sprintf("no result after %s, and again after %s when run alone", e.guard, 4*e.guard)
 		case o.Panic != "":
-			out[i] = result{status: "panic", site: o.Site, msg: o.Panic, stack: o.Stack}
+			st := o.Stack
+			if len(st) > 2500 {
+				st = st[:2500]
+			}
+			out[i] = result{status: "panic", site: o.Site, msg: o.Panic, stack: st}
 		default:
 			e.out.Hit("slow:finished-when-run-alone")
 			out[i] = result{status: "error"}
